@@ -6,6 +6,7 @@ package props
 import (
 	"encoding/json"
 	"fmt"
+	"net"
 	"os"
 	"path/filepath"
 	"strconv"
@@ -524,7 +525,7 @@ func TestC01E2E(t *testing.T) {
 // ---------------------------------------------------------------- C17: generated configuration started for real
 
 const c17E2ERule = " | end-to-end stage: generated ports / worker counts / stats port given through environment, file and command line; the real binary is started and the effective values are observed " +
-	"(datagrams sent to the expected UDP ports move that protocol's UDPCount, Workers in /flow, stats API on the expected port); the <protocol>-enabled switches and the two cache file paths are given the same way " +
+	"(datagrams sent to the expected UDP ports move that protocol's UDPCount, Workers in /flow, stats API on the expected port); the <protocol>-enabled switches, the listen addresses (127.0.0.1 | ::1 | 127.0.0.3 | default: datagrams sent to each of the three are received or not accordingly) and the two cache file paths are given the same way " +
 	"(a protocol that resolves to disabled runs no workers and receives nothing; at shutdown the cache files appear at the effective paths and at no other candidate path)"
 
 type c17E2ECase struct {
@@ -684,6 +685,28 @@ func runC17E2E(c *c17E2ECase) (v verdict, sig string, err error) {
 			effCache[proto] = path
 		}
 	}
+	// listen addresses: env gives 127.0.0.1, the file ::1, the command line 127.0.0.3; default = all addresses
+	addrKeys := map[string]string{"ipfix": "ipfix-addr", "nf9": "netflow9-addr", "nf5": "netflow5-addr", "sflow": "sflow-addr"}
+	effAddr := map[string]string{}
+	for _, proto := range []string{"ipfix", "nf9", "nf5", "sflow"} {
+		key := addrKeys[proto]
+		m := c.Masks[key]
+		for bit, val := range []string{"127.0.0.1", "::1", "127.0.0.3"} {
+			if m&(1<<uint(bit)) == 0 {
+				continue
+			}
+			switch bit {
+			case 0:
+				cfg.Env = append(cfg.Env, "VFLOW_"+strings.ToUpper(strings.ReplaceAll(key, "-", "_"))+"="+val)
+			case 1:
+				cfg.Extra[key] = fmt.Sprintf("%q", val)
+			case 2:
+				cfg.Args = append(cfg.Args, "-"+key, val)
+			}
+			effAddr[proto] = val
+		}
+		v.label(m != 0, "listen-address-given")
+	}
 	proc, e := startVflowRaw(dir, def, cfg)
 	if e != nil {
 		if proc != nil && proc.exited() {
@@ -716,28 +739,47 @@ func runC17E2E(c *c17E2ECase) (v verdict, sig string, err error) {
 			return v, "precedence", fmt.Errorf("%s given by sources mask %03b: %d workers running, want %d (command line > file > environment > default)", k, c.Masks[k], w.Workers, effW[k])
 		}
 	}
-	ex, e := openExporter(9)
+	ex4, e := openExporter(9)
 	if e != nil {
 		return v, "", fmt.Errorf("harness: %v", e)
 	}
-	defer ex.conn.Close()
+	defer ex4.conn.Close()
+	ex6, e := openExporter(0)
+	if e != nil {
+		return v, "", fmt.Errorf("harness: %v", e)
+	}
+	defer ex6.conn.Close()
 	for _, pr := range []struct {
 		proto string
 		port  int
 	}{{"ipfix", eff.IPFIX}, {"nf9", eff.NF9}, {"nf5", eff.NF5}, {"sflow", eff.SFlow}} {
-		before, _ := proc.flowStats()
-		ex.send(pr.port, []byte{0, 0, 0, 1})
-		if !enabled[pr.proto] {
-			// a disabled protocol listens nowhere
-			_, moved := waitStats(proc, 300*time.Millisecond, func(fs *flowStats) bool { return fs.of(pr.proto).UDPCount > before.of(pr.proto).UDPCount })
-			if moved {
-				return v, "precedence", fmt.Errorf("%s resolves to false (masks %v, values %v) but the protocol receives datagrams on port %d", enKeys[pr.proto], c.Masks, c.Bools, pr.port)
+		// which destination addresses reach the listener follows from the effective listen address
+		dests := []string{"127.0.0.1", "::1", "127.0.0.3"}
+		for _, famName := range dests {
+			reachable := effAddr[pr.proto] == "" || effAddr[pr.proto] == famName
+			before, _ := proc.flowStats()
+			ex := ex4
+			if famName == "::1" {
+				ex = ex6
 			}
-			continue
-		}
-		_, ok := waitStats(proc, 3*time.Second, func(fs *flowStats) bool { return fs.of(pr.proto).UDPCount > before.of(pr.proto).UDPCount })
-		if !ok {
-			return v, "precedence", fmt.Errorf("%s listener is not on port %d, which the sources (masks %v) make effective", pr.proto, pr.port, c.Masks)
+			ex.conn.WriteToUDP([]byte{0, 0, 0, 1}, &net.UDPAddr{IP: net.ParseIP(famName), Port: pr.port})
+			moved := func(fs *flowStats) bool { return fs.of(pr.proto).UDPCount > before.of(pr.proto).UDPCount }
+			if !enabled[pr.proto] {
+				// a disabled protocol listens nowhere
+				if _, m := waitStats(proc, 250*time.Millisecond, moved); m {
+					return v, "precedence", fmt.Errorf("%s resolves to false (masks %v, values %v) but the protocol receives datagrams on port %d", enKeys[pr.proto], c.Masks, c.Bools, pr.port)
+				}
+				continue
+			}
+			if !reachable {
+				if _, m := waitStats(proc, 250*time.Millisecond, moved); m {
+					return v, "precedence", fmt.Errorf("%s given by sources mask %03b resolves to %q, but a datagram sent to %s:%d was received", addrKeys[pr.proto], c.Masks[addrKeys[pr.proto]], effAddr[pr.proto], famName, pr.port)
+				}
+				continue
+			}
+			if _, ok := waitStats(proc, 3*time.Second, moved); !ok {
+				return v, "precedence", fmt.Errorf("%s listener does not receive on %s port %d, which the sources make effective (port mask %03b, address %q by mask %03b)", pr.proto, famName, pr.port, c.Masks[map[string]string{"ipfix": "ipfix-port", "nf9": "netflow9-port", "nf5": "netflow5-port", "sflow": "sflow-port"}[pr.proto]], effAddr[pr.proto], c.Masks[addrKeys[pr.proto]])
+			}
 		}
 	}
 	proc.signal(syscall.SIGTERM)
@@ -789,6 +831,9 @@ func TestC17E2E(t *testing.T) {
 		}
 		for _, k := range []string{"ipfix-tpl-cache-file", "netflow9-tpl-cache-file"} {
 			c.Masks[k] = rapid.SampledFrom([]int{2, 1, 4, 3, 6, 5, 7}).Draw(t, "cachemask")
+		}
+		for _, k := range []string{"ipfix-addr", "netflow9-addr", "netflow5-addr", "sflow-addr"} {
+			c.Masks[k] = rapid.SampledFrom([]int{0, 0, 0, 1, 2, 4, 3, 5, 6, 7}).Draw(t, "addrmask")
 		}
 		for _, k := range keys {
 			c.Masks[k] = rapid.SampledFrom([]int{7, 6, 5, 3, 4, 2, 1, 2, 6}).Draw(t, "mask")
